@@ -21,7 +21,24 @@ INSTANCE MimeBuild WITH MAXP <- 0, MAXE <- 0, MAXA <- 0, ENCS <- {}, PENCS <- {}
                         PRODS <- <<>>, SRCS <- <<>>, ROTS <- {}, BOUNDARIES <- {}, DELS <- {}, HDRS <- {}, PDESCS <- {}, FDESCS <- {}, FNAMES <- {}, FCIDS <- {}, OPSEQS <- {}, FAULTS <- {}, ROUNDTRIP <- {}, SMIMES <- {},
                         prog <- 0, pc <- 0
 
+B == INSTANCE B64Line WITH SIZES <- {}, MAXCALLS <- 0, DEV_OffByOne <- FALSE, used <- 0, lines <- 0, rest <- 0, inrec <- 0,
+                         total <- 0, calls <- 0, closed <- 0
+
 Trace == ndJsonDeserialize(IOEnv.TRACE_FILE)
+
+(* the calls of one base64 line breaker as the build-tag hook recorded them (<<kind, n, used>>, kind 0 = Write, 1 = Close), *)
+(* from index i up to its Close, folded through B64Line!Call: the line lengths the specification puts out and whether   *)
+(* `used` and the recursion agree with it at every call                                                                  *)
+RECURSIVE B64Seg(_, _, _, _, _, _)
+B64Seg(cs, i, used, lines, pend, ok) ==      \* pend: [has, n] - the recursive call the specification expects next
+  IF i > Len(cs) THEN [next |-> i, lines |-> lines, ok |-> FALSE]
+  ELSE LET c == cs[i] IN
+       IF c[1] = 1
+       THEN [next |-> i + 1, lines |-> IF B!CloseLine(used) > 0 THEN Append(lines, B!CloseLine(used)) ELSE lines,
+             ok |-> ok /\ c[3] = used /\ ~pend.has]
+       ELSE LET r == B!Call(used, c[2]) IN
+            B64Seg(cs, i + 1, r.used, IF r.line > 0 THEN Append(lines, r.line) ELSE lines,
+                   [has |-> r.rec, n |-> r.rest], ok /\ c[3] = used /\ (pend.has => c[2] = pend.n))
 
 VARIABLES l, ms, b, lastline, viol1, viols, stats, second
 tvars == <<l, ms, b, lastline, viol1, viols, stats, second>>
@@ -29,7 +46,7 @@ tvars == <<l, ms, b, lastline, viol1, viols, stats, second>>
 Ev == Trace[l]
 
 ZeroStats == [traces |-> 0, events |-> 0, lines |-> 0, outs |-> 0, faulted |-> 0, leaves |-> 0, hdrs |-> 0,
-              trees |-> 0, multiparts |-> 0, rerenders |-> 0, rts |-> 0, smimes |-> 0, smimes2 |-> 0]
+              trees |-> 0, multiparts |-> 0, rerenders |-> 0, rts |-> 0, smimes |-> 0, smimes2 |-> 0, b64segs |-> 0]
 
 TInit == /\ l = 1 /\ ms = MSInit /\ b = [t |-> 0] /\ lastline = 0 /\ second = FALSE
          /\ viol1 = {} /\ viols = {} /\ stats = ZeroStats
@@ -139,10 +156,20 @@ Step ==
             /\ viol1' = viol1 \cup SmimeFlags(Ev)
             /\ stats' = [stats EXCEPT !.smimes = @ + 1, !.smimes2 = @ + (IF Ev.k > 1 THEN 1 ELSE 0)]
             /\ UNCHANGED <<ms, b, lastline, viols, second>>
+       [] Ev.ev = "b64" ->          \* the line breaker calls of the rendering that follows
+            /\ b' = [calls |-> Ev.calls, seg |-> 1] @@ b
+            /\ UNCHANGED <<ms, lastline, viol1, viols, stats, second>>
        [] Ev.ev = "leaf" ->
+            \* writeBody creates (and closes) a line breaker for every quoted-printable and base64 leaf; only base64 content passes through it
+            LET judged == "calls" \in DOMAIN b /\ ~second /\ Ev.cte \in {"base64", "quoted-printable"}
+                sg == IF judged THEN B64Seg(b.calls, b.seg, 0, <<>>, [has |-> FALSE, n |-> 0], TRUE)
+                      ELSE [next |-> 0, lines |-> <<>>, ok |-> TRUE] IN
             /\ viol1' = viol1 \cup Tag(F("C01_ContentEqual", Ev.eq))
-            /\ stats' = [stats EXCEPT !.leaves = @ + 1]
-            /\ UNCHANGED <<ms, b, lastline, viols, second>>
+                               \* conformance of the real line breaker with B64Line.tla (not a verdict of C18)
+                               \cup F("DRIFT_B64_Calls", sg.ok) \cup F("DRIFT_B64_Lines", judged => sg.lines = (IF Ev.b64 THEN Ev.b64lines ELSE <<>>))
+            /\ b' = IF judged THEN [seg |-> sg.next] @@ b ELSE b
+            /\ stats' = [stats EXCEPT !.leaves = @ + 1, !.b64segs = @ + (IF judged THEN 1 ELSE 0)]
+            /\ UNCHANGED <<ms, lastline, viols, second>>
        [] Ev.ev = "hdr" ->
             /\ viol1' = viol1 \cup Tag(F("C02_ValueRoundTrip", Ev.got = Ev.want)
                               \cup F("C18_UnfoldsToValue", Ev.gotx = Ev.wantx)
